@@ -373,12 +373,12 @@ class Parser:
         it and to move the result into dest.
         """
         code_gen = code_gen or self._code_gen
-        if self._current_token.content == '{':
+        if self._current_token.is_mark('{'):
             return self.next_token() and self._rvalue_curly(dest, code_gen)
-        if self._current_token.content == '[':
+        if self._current_token.is_mark('['):
             return self._rvalue_fn_call(dest, code_gen)
         move_inst = OpCode.MOVE
-        uminus = self._current_token.content == '-'
+        uminus = self._current_token.is_mark('-')
         if uminus:
             self.next_token()
         value = self._current_constant()
@@ -458,7 +458,7 @@ class Parser:
 
     def _at_rvalue(self, include_reg=True) -> bool:
         token = self.current_token
-        if str(token) in '{[':
+        if token.is_mark('{', '['):
             return True
         if token.token_type in (
                 TokenTypes.LITERAL_STRING,
@@ -570,7 +570,7 @@ class Parser:
         return self.next_token()
 
     def _call_routine(self) -> bool:
-        if str(self._current_token) == '[':
+        if self._current_token.is_mark('['):
             self.next_token()
             bracketed = True
         else:
@@ -590,7 +590,7 @@ class Parser:
             self._add_instruction(OpCode.PARAM, param_name, Register.RESULT)
         self._add_instruction(OpCode.JSR, routine.name)
         if bracketed:
-            if str(self.current_token) != ']':
+            if not self.current_token.is_mark(']'):
                 return self.trigger_error(
                     'No closing bracket for function call.')
             self.next_token()
@@ -620,7 +620,7 @@ class Parser:
         # In this context, not inside an rvalue, a freestanding expression is
         # an error. A routine that returns a value is still called, but the
         # return value is thrown away.
-        if str(self.current_token) == '{':
+        if self.current_token.is_mark('{'):
             return self.token_error(
                 "A mathematical expression is not allowed here.")
         if str(self.current_token == '['):
